@@ -1176,3 +1176,61 @@ def rule_n(ctx: Ctx) -> None:
     ctx.ok("generator|no unreviewed double rendering", {"handlers_rendering_children": n_methods, "double_render_candidates": n})
     ctx.count("handlers_rendering_children", n_methods)
     ctx.min_instances("handlers_rendering_children", n_methods, 300)
+
+
+# ------------------------------------------------------------------------------------------ C05.o
+# _advance_chunk() indexes self._chunks[self._chunk_index] unconditionally.
+
+def rule_o(ctx: Ctx) -> None:
+    ctx.rule(
+        "C05.o",
+        "chunk cursor stays inside the chunk list: every self._advance_chunk() is reached only on paths on which `self._chunk_index < <number of chunks>` was "
+        "established since the previous chunk move (a branch that merely *reports* the end with raise_error and then falls through does not establish it)",
+    )
+    repo = ctx.repo
+    base = repo.cls("sqlglot.parser", "Parser")
+    n = 0
+    for c in [base] + repo.subclasses(base):
+        m = c.module
+        for name, md in c.methods().items():
+            if name == "_advance_chunk":
+                continue
+            sites = [x for x in walk_no_nested(md, include_lambda=False) if isinstance(x, ast.Call) and call_name(x) == "self._advance_chunk"]
+            if not sites:
+                continue
+            g = CFG(md)
+            aliases = {st.targets[0].id for st in walk_no_nested(md) if isinstance(st, ast.Assign) and len(st.targets) == 1 and isinstance(st.targets[0], ast.Name)
+                       and norm(st.value) in ("len(self._chunks)",)}
+
+            def is_size(e: ast.AST) -> bool:
+                return norm(e) == "len(self._chunks)" or (isinstance(e, ast.Name) and e.id in aliases)
+
+            def tr(nd, lab, s):
+                a = nd.ast
+                if a is None:
+                    return s
+                if nd.kind == "cond" and isinstance(a, ast.Compare) and len(a.ops) == 1 and lab in (True, False):
+                    l, op, r = a.left, a.ops[0], a.comparators[0]
+                    if norm(l) == "self._chunk_index" and is_size(r):
+                        if (isinstance(op, ast.Lt) and lab) or (isinstance(op, ast.GtE) and not lab):
+                            return True
+                        if (isinstance(op, ast.Lt) and not lab) or (isinstance(op, ast.GtE) and lab):
+                            return False
+                if nd.kind in ("stmt", "with") and any(isinstance(x, ast.Call) and call_name(x) == "self._advance_chunk" for x in walk_no_nested(a)):
+                    return False
+                return s
+
+            IN = forward(g, False, tr, lambda p, q: p and q)
+            for x in sites:
+                n += 1
+                where = f"{c.key}.{name}"
+                nodes = g.nodes_for(x)
+                ok = bool(nodes) and all(IN.get(q) is True for q in nodes)
+                if ok:
+                    ctx.ok(f"{where}|self._advance_chunk()|{_ordinal(md, x)}", {"in": where, "guard": "self._chunk_index < number of chunks on every path"})
+                else:
+                    ctx.fail(m, x, where, "self._advance_chunk()",
+                             "reached on a path on which no `self._chunk_index < len(self._chunks)` test succeeded since the last chunk move: after the last chunk "
+                             "self._chunks[self._chunk_index] raises IndexError (a raise_error() that returns under a lenient error level does not end the path)")
+    ctx.count("advance_chunk_sites", n)
+    ctx.min_instances("advance_chunk_sites", n, 2)
